@@ -11,6 +11,7 @@ import (
 	"log/slog"
 	"os"
 	"path/filepath"
+	"strings"
 	"sync"
 	"time"
 
@@ -138,6 +139,12 @@ func (m *mem) RepoGet(ctx context.Context, repoStr string) (Repo, error) {
 		mr.index.Annotations[types.AnnotReferrerConvert] = "true"
 	}
 	if m.conf.Storage.RootDir != "" {
+		// each path element is used as a directory name, which filesystems limit to 255 bytes
+		for _, el := range strings.Split(repoStr, "/") {
+			if len(el) > 255 {
+				return nil, fmt.Errorf("repo %s has a path element longer than 255 characters%.0w", repoStr, types.ErrRepoNotAllowed)
+			}
+		}
 		mr.path = filepath.Join(m.conf.Storage.RootDir, repoStr)
 		err := mr.repoInit()
 		if err != nil {
